@@ -262,7 +262,13 @@ impl<D> Serialize for DicomJson<&'_ InMemElement<D>> {
                 VR::OB | VR::OD | VR::OF | VR::OL | VR::OV | VR::OW | VR::UN => {
                     serializer.serialize_entry("InlineBinary", &InlineBinary::from(v))?;
                 }
-                VR::SQ => unreachable!("unexpected VR SQ in primitive value"),
+                VR::SQ => {
+                    // a non-empty primitive value can be given the VR SQ
+                    // (e.g. when built from a JSON element with SQ and InlineBinary)
+                    return Err(serde::ser::Error::custom(
+                        "unexpected VR SQ in primitive value",
+                    ));
+                }
             },
         }
 
